@@ -32,9 +32,9 @@
 //!
 //! Soundness: DISTINCT states / DISTINCT array_agg / string_agg results without ORDER BY come out of hash
 //! sets whose iteration order differs between two accumulator instances: lists are compared as multisets
-//! there (label `multiset-compare`). `supports_convert_to_state` and `simplify` are documented-by-omission
-//! not carried and not compared. `size()` is compared exactly (both sides hold the same native object kind
-//! fed identically) except for hash-set based DISTINCT accumulators.
+//! there (label `multiset-compare`). `simplify` is not carried and not compared. `size()` is called but not compared: its value depends on the buffer
+//! capacities of whatever arrays each accumulator holds (arrays imported over the C data interface report
+//! exact lengths), e.g. first_value(struct) after merge_batch: native 592 bytes, foreign 412.
 //!
 //! Non-trivial: at least one native evaluate/state produced a non-NULL value that was compared with F.
 use crate::vals::*;
@@ -575,7 +575,7 @@ impl Property for C45b {
         case_strategy(tier)
     }
     fn budget(&self, tier: Tier) -> Budget {
-        Budget::new(tier.pick(1_600, 160_000), tier.pick(8, 16)).min_nontrivial(tier.pick(400, 40_000)).discard_cap(0.5)
+        Budget::new(tier.pick(1_600, 600_000), tier.pick(8, 16)).min_nontrivial(tier.pick(400, 150_000)).discard_cap(0.5)
     }
     fn rule(&self) -> String {
         "aggregate function and coerced argument-type vector drawn uniformly from the catalog (all 39 default aggregate UDFs; vectors accepted by the native accumulator factory), DISTINCT / IGNORE NULLS / ORDER BY variants, 0-20 rows \
@@ -587,14 +587,20 @@ impl Property for C45b {
         vec![
             "differential oracle: native and foreign objects receive identical call sequences, so order sensitivity and float inexactness cancel".to_string(),
             "DISTINCT states/results without ORDER BY are compared as multisets (hash-set iteration order differs between two accumulator instances)".to_string(),
-            "supports_convert_to_state, simplify, documentation, reverse_expr are not part of the FFI struct and not compared".to_string(),
+            "simplify, documentation, reverse_expr are not part of the FFI struct and not compared".to_string(),
             "ORDER BY only for first_value/last_value/array_agg/string_agg/nth_value (ORDER BY on order-insensitive aggregates is a known C07 finding unrelated to the FFI)".to_string(),
             "nested FFI structs created inside a conversion (FFI_PhysicalExpr in the accumulator arguments) keep the library's own marker and are unwrapped locally — their foreign path is not forced".to_string(),
             format!("foreign path forced by overwriting the public library_marker_id fields ({FOREIGN_MARKER_NOTE})"),
         ]
     }
     fn run(&self, case: &Case) -> CaseResult {
-        run_case(case)
+        run_cached(case)
+    }
+    fn known_signature(&self, case: &Case) -> Option<String> {
+        match &run_cached(case).outcome {
+            Outcome::Violation(m) => m.strip_prefix("[sig=").and_then(|rest| rest.split(']').next()).map(|s| s.to_string()),
+            _ => None,
+        }
     }
     fn extra(&self, _tier: Tier, _seed: u64) -> Result<Value, (String, Case)> {
         let st = stats().lock().map(|m| m.clone()).unwrap_or_default();
@@ -609,6 +615,20 @@ impl Property for C45b {
         }
         Ok(json!({"per_function": per_fn, "functions_with_zero_successes": zero, "functions_in_scope": catalog().len()}))
     }
+}
+
+thread_local! {
+    static LAST: std::cell::RefCell<Option<(u64, CaseResult)>> = const { std::cell::RefCell::new(None) };
+}
+
+fn run_cached(case: &Case) -> CaseResult {
+    let fp = serde_json::to_vec(case).map(|b| fnv1a(&b)).unwrap_or(0);
+    if let Some(r) = LAST.with(|l| l.borrow().as_ref().filter(|(f, _)| *f == fp).map(|(_, r)| r.clone())) {
+        return r;
+    }
+    let r = run_case(case);
+    LAST.with(|l| *l.borrow_mut() = Some((fp, r.clone())));
+    r
 }
 
 fn run_case(case: &Case) -> CaseResult {
@@ -638,6 +658,20 @@ fn run_case(case: &Case) -> CaseResult {
         Ok(x) => x,
         Err(e) => violation!("{e}"),
     };
+    // a NATIVE call with panic capture: a native panic is not an FFI matter (and would abort the process inside an
+    // extern "C" entry point), so the section is abandoned before the foreign side is called
+    let mut native_panics: Vec<String> = vec![];
+    macro_rules! nat {
+        ($e:expr, $bail:expr) => {
+            match crate::guard(|| $e) {
+                Ok(r) => r,
+                Err(p) => {
+                    native_panics.push(format!("native-panic:fn={name}:{}", truncate(&p, 40)));
+                    $bail
+                }
+            }
+        };
+    }
 
     // ---- metadata
     if foreign.name() != native.name() || foreign.aliases() != native.aliases() {
@@ -659,10 +693,9 @@ fn run_case(case: &Case) -> CaseResult {
         let fields = fields_of(&case.types);
         let a = fields_with_udf(&fields, native.as_ref()).map(|f| f.iter().map(|x| x.data_type().clone()).collect::<Vec<_>>()).map_err(|e| truncate(&e.to_string(), 200));
         let b = fields_with_udf(&fields, &foreign).map(|f| f.iter().map(|x| x.data_type().clone()).collect::<Vec<_>>()).map_err(|e| truncate(&e.to_string(), 200));
-        match (&a, &b) {
-            (Ok(x), Ok(y)) if x == y => {}
-            (Err(_), Err(_)) => {}
-            _ => violation!("coercion: native {a:?} foreign {b:?}"),
+        let raw_dts: Vec<DataType> = case.types.iter().map(|t| t.dt()).collect();
+        if let Err(e) = crate::coercion_agree(&a, &b, &raw_dts) {
+            violation!("coercion: {e}");
         }
     }
 
@@ -688,6 +721,25 @@ fn run_case(case: &Case) -> CaseResult {
         }
         (Err(_), Err(_)) => labels.push("state_fields:both-fail".into()),
         (a, b) => violation!("state_fields: native {:?} foreign {:?}", a.map(|_| "Ok"), b.map(|_| "Ok")),
+    }
+    // value on empty input: used by the optimizer when it decorrelates scalar subqueries (the "count bug")
+    let mut pending_known: Option<String> = None;
+    {
+        let dt = owner.return_field.data_type();
+        match (native.default_value(dt), foreign.default_value(dt)) {
+            (Ok(a), Ok(b)) => {
+                if render_scalar(&a) != render_scalar(&b) {
+                    // reported at the very end, after every other comparison of this case has passed
+                    pending_known = Some(format!(
+                        "[sig=udaf-default-value-not-carried] {sig}: default_value({dt}) (the aggregate's value over no rows, used when a correlated scalar subquery is decorrelated): native {} foreign {} — FFI_AggregateUDF has no default_value entry, ForeignAggregateUDF answers NULL",
+                        render_scalar(&a),
+                        render_scalar(&b)
+                    ));
+                }
+            }
+            (Err(_), Err(_)) => {}
+            (a, b) => violation!("default_value: native ok={} foreign ok={}", a.is_ok(), b.is_ok()),
+        }
     }
     let gsup = native.groups_accumulator_supported(owner.args());
     if foreign.groups_accumulator_supported(owner.args()) != gsup {
@@ -725,7 +777,8 @@ fn run_case(case: &Case) -> CaseResult {
     let merge_at = case.merge_from.map(|f| pick_index(f, n + 1)).unwrap_or(n);
 
     // ---- plain accumulators: N, U (via ForeignAggregateUDF), F (forced ForeignAccumulator)
-    let acc_n = native.accumulator(owner.args());
+    'plain: {
+    let acc_n = nat!(native.accumulator(owner.args()), break 'plain);
     let acc_u = foreign.accumulator(owner.args());
     let acc_f = forced_accumulator(&ffi, &owner, Kind::Plain);
     match (acc_n, acc_u, acc_f) {
@@ -738,7 +791,8 @@ fn run_case(case: &Case) -> CaseResult {
             macro_rules! step {
                 ($what:expr, $call:ident, $vals:expr) => {{
                     let v: Vec<ArrayRef> = $vals;
-                    let (rn, ru, rf) = (a_n.$call(&v), a_u.$call(&v), a_f.$call(&v));
+                    let rn = nat!(a_n.$call(&v), break 'plain);
+                    let (ru, rf) = (a_u.$call(&v), a_f.$call(&v));
                     match (&rn, &ru, &rf) {
                         (Ok(()), Ok(()), Ok(())) => {}
                         (Err(_), Err(_), Err(_)) => {
@@ -758,10 +812,10 @@ fn run_case(case: &Case) -> CaseResult {
             }
             if !failed && merge_at < n {
                 // the rest of the rows arrive as a partial state produced by a native helper
-                match native.accumulator(owner.args()) {
+                match nat!(native.accumulator(owner.args()), break 'plain) {
                     Ok(mut helper) => {
-                        if helper.update_batch(&slice(merge_at, n)).is_ok() {
-                            if let Ok(st) = helper.state() {
+                        if nat!(helper.update_batch(&slice(merge_at, n)), break 'plain).is_ok() {
+                            if let Ok(st) = nat!(helper.state(), break 'plain) {
                                 let arrs: Result<Vec<ArrayRef>, _> = st.iter().map(|s| s.to_array()).collect();
                                 if let Ok(arrs) = arrs {
                                     labels.push("merge_batch".into());
@@ -774,11 +828,11 @@ fn run_case(case: &Case) -> CaseResult {
                 }
             }
             if !failed {
-                if a_n.size() != a_f.size() && !multiset_ok {
-                    violation!("size(): native {} forced-foreign {}", a_n.size(), a_f.size());
-                }
+                // size() is forwarded, but its value depends on buffer capacities of the arrays each side happens to
+                // hold (imported C-data buffers report their exact length): exercised, not compared
+                let _ = (nat!(a_n.size(), break 'plain), a_f.size());
                 if case.end_with_state {
-                    match (a_n.state(), a_u.state(), a_f.state()) {
+                    match (nat!(a_n.state(), break 'plain), a_u.state(), a_f.state()) {
                         (Ok(x), Ok(y), Ok(z)) => {
                             if x.len() != y.len() || x.len() != z.len() || !x.iter().zip(y.iter()).all(|(p, q)| scalar_eq(p, q, multiset_ok, &mut used_multiset)) || !x.iter().zip(z.iter()).all(|(p, q)| scalar_eq(p, q, multiset_ok, &mut used_multiset)) {
                                 violation!(
@@ -798,7 +852,7 @@ fn run_case(case: &Case) -> CaseResult {
                         (x, y, z) => violation!("state(): native ok={} via-foreign-udaf ok={} forced-foreign ok={} ({:?})", x.is_ok(), y.is_ok(), z.is_ok(), z.err().map(|e| truncate(&e.to_string(), 200))),
                     }
                 } else {
-                    match (a_n.evaluate(), a_u.evaluate(), a_f.evaluate()) {
+                    match (nat!(a_n.evaluate(), break 'plain), a_u.evaluate(), a_f.evaluate()) {
                         (Ok(x), Ok(y), Ok(z)) => {
                             if !scalar_eq(&x, &y, multiset_ok, &mut used_multiset) || !scalar_eq(&x, &z, multiset_ok, &mut used_multiset) {
                                 violation!("evaluate(): native {} via-foreign-udaf {} forced-foreign {}", render_scalar(&x), render_scalar(&y), render_scalar(&z));
@@ -817,10 +871,12 @@ fn run_case(case: &Case) -> CaseResult {
         }
         (a, b, c) => violation!("accumulator(): native ok={} via-foreign-udaf ok={} forced-foreign ok={} ({:?})", a.is_ok(), b.is_ok(), c.is_ok(), c.err()),
     }
+    }
 
     // ---- sliding accumulators
     if !case.frames.is_empty() && n > 0 {
-        let s_n = native.create_sliding_accumulator(owner.args());
+        'sliding: {
+        let s_n = nat!(native.create_sliding_accumulator(owner.args()), break 'sliding);
         let s_f = forced_accumulator(&ffi, &owner, Kind::Sliding);
         match (s_n, s_f) {
             (Ok(mut a_n), Ok(mut a_f)) => {
@@ -835,7 +891,7 @@ fn run_case(case: &Case) -> CaseResult {
                         let ns = (s + *ds as usize).min(ne);
                         if ne > e {
                             let v = slice(e, ne);
-                            match (a_n.update_batch(&v), a_f.update_batch(&v)) {
+                            match (nat!(a_n.update_batch(&v), break 'sliding), a_f.update_batch(&v)) {
                                 (Ok(()), Ok(())) => {}
                                 (Err(_), Err(_)) => break 'frames,
                                 (x, y) => violation!("sliding update_batch: native {:?} foreign {:?}", x.map_err(|e| truncate(&e.to_string(), 200)), y.map_err(|e| truncate(&e.to_string(), 200))),
@@ -843,7 +899,7 @@ fn run_case(case: &Case) -> CaseResult {
                         }
                         if ns > s {
                             let v = slice(s, ns);
-                            match (a_n.retract_batch(&v), a_f.retract_batch(&v)) {
+                            match (nat!(a_n.retract_batch(&v), break 'sliding), a_f.retract_batch(&v)) {
                                 (Ok(()), Ok(())) => {}
                                 (Err(_), Err(_)) => break 'frames,
                                 (x, y) => violation!("retract_batch: native {:?} foreign {:?}", x.map_err(|e| truncate(&e.to_string(), 200)), y.map_err(|e| truncate(&e.to_string(), 200))),
@@ -852,7 +908,7 @@ fn run_case(case: &Case) -> CaseResult {
                         s = ns;
                         e = ne;
                         if e > s {
-                            match (a_n.evaluate(), a_f.evaluate()) {
+                            match (nat!(a_n.evaluate(), break 'sliding), a_f.evaluate()) {
                                 (Ok(x), Ok(y)) => {
                                     if !scalar_eq(&x, &y, multiset_ok, &mut used_multiset) {
                                         violation!("sliding evaluate() on frame [{s},{e}): native {} foreign {}", render_scalar(&x), render_scalar(&y));
@@ -876,11 +932,13 @@ fn run_case(case: &Case) -> CaseResult {
             (Err(_), Err(_)) => labels.push("sliding:both-reject".into()),
             (a, b) => violation!("create_sliding_accumulator: native ok={} foreign ok={} ({:?})", a.is_ok(), b.is_ok(), b.err()),
         }
+        }
     }
 
     // ---- groups accumulators
     if gsup {
-        let g_n = native.create_groups_accumulator(owner.args());
+        'groups: {
+        let g_n = nat!(native.create_groups_accumulator(owner.args()), break 'groups);
         let g_u = foreign.create_groups_accumulator(owner.args());
         let g_f = forced_groups_accumulator(&ffi, &owner);
         match (g_n, g_u, g_f) {
@@ -899,7 +957,8 @@ fn run_case(case: &Case) -> CaseResult {
                     let v = slice(lo, hi);
                     let gi: Vec<usize> = case.groups[lo..hi].iter().map(|g| *g as usize).collect();
                     let f = filter_arr.as_ref().map(|f| f.slice(lo, hi - lo));
-                    let (rn, ru, rf) = (a_n.update_batch(&v, &gi, f.as_ref(), total), a_u.update_batch(&v, &gi, f.as_ref(), total), a_f.update_batch(&v, &gi, f.as_ref(), total));
+                    let rn = nat!(a_n.update_batch(&v, &gi, f.as_ref(), total), break 'groups);
+                    let (ru, rf) = (a_u.update_batch(&v, &gi, f.as_ref(), total), a_f.update_batch(&v, &gi, f.as_ref(), total));
                     match (&rn, &ru, &rf) {
                         (Ok(()), Ok(()), Ok(())) => {}
                         (Err(_), Err(_), Err(_)) => failed = true,
@@ -907,16 +966,17 @@ fn run_case(case: &Case) -> CaseResult {
                     }
                 }
                 if !failed && merge_at < n {
-                    if let Ok(mut helper) = native.create_groups_accumulator(owner.args()) {
+                    if let Ok(mut helper) = nat!(native.create_groups_accumulator(owner.args()), break 'groups) {
                         // dense re-mapping of the groups present in the tail
                         let mut present: Vec<usize> = case.groups[merge_at..n].iter().map(|g| *g as usize).collect();
                         present.sort();
                         present.dedup();
                         let gi: Vec<usize> = case.groups[merge_at..n].iter().map(|g| present.iter().position(|p| *p == *g as usize).unwrap_or(0)).collect();
                         let f = filter_arr.as_ref().map(|f| f.slice(merge_at, n - merge_at));
-                        if helper.update_batch(&slice(merge_at, n), &gi, f.as_ref(), present.len()).is_ok() {
-                            if let Ok(st) = helper.state(EmitTo::All) {
-                                let (rn, ru, rf) = (a_n.merge_batch(&st, &present, total), a_u.merge_batch(&st, &present, total), a_f.merge_batch(&st, &present, total));
+                        if nat!(helper.update_batch(&slice(merge_at, n), &gi, f.as_ref(), present.len()), break 'groups).is_ok() {
+                            if let Ok(st) = nat!(helper.state(EmitTo::All), break 'groups) {
+                                let rn = nat!(a_n.merge_batch(&st, &present, total), break 'groups);
+                                let (ru, rf) = (a_u.merge_batch(&st, &present, total), a_f.merge_batch(&st, &present, total));
                                 match (&rn, &ru, &rf) {
                                     (Ok(()), Ok(()), Ok(())) => labels.push("groups:merge_batch".into()),
                                     (Err(_), Err(_), Err(_)) => failed = true,
@@ -927,11 +987,11 @@ fn run_case(case: &Case) -> CaseResult {
                     }
                 }
                 // convert_to_state on the first batch (stateless with respect to the accumulated groups)
-                if !failed && n > 0 && a_n.supports_convert_to_state() && name != "percentile_cont" {
+                if !failed && n > 0 && name != "percentile_cont" {
                     let hi = pts.get(1).copied().unwrap_or(n).max(1).min(n);
                     let v = slice(0, hi);
                     let f = filter_arr.as_ref().map(|f| f.slice(0, hi));
-                    match (a_n.convert_to_state(&v, f.as_ref()), a_f.convert_to_state(&v, f.as_ref())) {
+                    match (nat!(a_n.convert_to_state(&v, f.as_ref()), break 'groups), a_f.convert_to_state(&v, f.as_ref())) {
                         (Ok(x), Ok(y)) => {
                             if x.len() != y.len() || !x.iter().zip(y.iter()).all(|(p, q)| array_eq(p, q, multiset_ok, &mut used_multiset)) {
                                 violation!("convert_to_state: native {:?} forced-foreign {:?}", arrays_desc(&x), arrays_desc(&y));
@@ -953,11 +1013,9 @@ fn run_case(case: &Case) -> CaseResult {
                     }
                     emits.push(EmitTo::All);
                     for emit in emits {
-                        if a_n.size() != a_f.size() && !multiset_ok {
-                            violation!("groups size(): native {} forced-foreign {}", a_n.size(), a_f.size());
-                        }
+                        let _ = (nat!(a_n.size(), break 'groups), a_f.size());
                         if case.groups_end_with_state {
-                            match (a_n.state(emit), a_u.state(emit), a_f.state(emit)) {
+                            match (nat!(a_n.state(emit), break 'groups), a_u.state(emit), a_f.state(emit)) {
                                 (Ok(x), Ok(y), Ok(z)) => {
                                     let ok = x.len() == y.len() && x.len() == z.len() && x.iter().zip(y.iter()).all(|(p, q)| array_eq(p, q, multiset_ok, &mut used_multiset)) && x.iter().zip(z.iter()).all(|(p, q)| array_eq(p, q, multiset_ok, &mut used_multiset));
                                     if !ok {
@@ -972,7 +1030,7 @@ fn run_case(case: &Case) -> CaseResult {
                                 (x, y, z) => violation!("groups state({emit:?}): native ok={} via-foreign-udaf ok={} forced-foreign ok={} ({:?})", x.is_ok(), y.is_ok(), z.is_ok(), z.err().map(|e| truncate(&e.to_string(), 200))),
                             }
                         } else {
-                            match (a_n.evaluate(emit), a_u.evaluate(emit), a_f.evaluate(emit)) {
+                            match (nat!(a_n.evaluate(emit), break 'groups), a_u.evaluate(emit), a_f.evaluate(emit)) {
                                 (Ok(x), Ok(y), Ok(z)) => {
                                     if !array_eq(&x, &y, multiset_ok, &mut used_multiset) || !array_eq(&x, &z, multiset_ok, &mut used_multiset) {
                                         violation!("groups evaluate({emit:?}): native {:?} via-foreign-udaf {:?} forced-foreign {:?}", arrays_desc(&[x]), arrays_desc(&[y]), arrays_desc(&[z]));
@@ -993,8 +1051,10 @@ fn run_case(case: &Case) -> CaseResult {
             (Err(_), Err(_), Err(_)) => labels.push("groups:all-reject".into()),
             (a, b, c) => violation!("create_groups_accumulator: native ok={} via-foreign-udaf ok={} forced-foreign ok={} ({:?})", a.is_ok(), b.is_ok(), c.is_ok(), c.err()),
         }
+        }
     }
 
+    labels.extend(native_panics);
     if used_multiset {
         labels.push("multiset-compare".into());
     }
@@ -1004,6 +1064,9 @@ fn run_case(case: &Case) -> CaseResult {
     if nontrivial {
         labels.push(format!("fn={name}"));
         bump(name, 4);
+    }
+    if let Some(m) = pending_known {
+        return CaseResult::violation(m).labels(labels).nontrivial(nontrivial);
     }
     CaseResult::pass().labels(labels).nontrivial(nontrivial)
 }
